@@ -87,6 +87,7 @@ trAlloc(Syme syme, TForm tf)
 	tfFollow(tf);
 	tr = (TReject) stoAlloc((unsigned) OB_Other, sizeof(*tr));
 
+	tr->why		= 0;	/* No particular cause yet: see analyseRejectionCause. */
 	tr->syme	= syme;
 	tr->tf		= tf;
 	tr->parN	= 0;
